@@ -109,6 +109,40 @@ def _sort_rule(prog, res, f, keys):
                         y = y.args[0]
                     okc = y.op == "arg" and y.args[1] == 2
     res.ob("S-sort", "%s | the sort is applied to a clone of the caller's list" % tag, okc, d, f.loc)
+    if clone_local is not None:
+        # ... and nothing but the sort changes the clone: no pop / truncate / retain on it, no second pass (reverse, swap, dedup) over its slice
+        import looprules
+        asm_blocks = {b for b, t in f.calls() if callee_of(t) in ("util::data_vec::DataVec::<T, N>::as_mut_slice",
+                                                                 "<util::data_vec::DataVec<T, N> as core::ops::DerefMut>::deref_mut")}
+        okm, dm = looprules.only_mutated_by(f, clone_local, asm_blocks)
+        if okm:
+            # the &mut [T] handed out by as_mut_slice goes to the sort only (shared re-borrows for iteration are fine)
+            rec = f.rec
+            slices = {t["dest"]["local"] for b, t in f.calls() if b in asm_blocks and not t["dest"]["proj"]}
+            muts = set(slices)
+            grew = True
+            while grew:
+                grew = False
+                for blk in rec["blocks"]:
+                    for st_ in blk["stmts"]:
+                        if st_["k"] != "assign" or st_["place"]["proj"]:
+                            continue
+                        rv = st_["rv"]
+                        src_l = None
+                        if rv["k"] in ("ref", "rawptr") and rv.get("mut") and rv["place"]["local"] in muts:
+                            src_l = rv["place"]["local"]
+                        if rv["k"] == "use" and rv["op"].get("k") in ("move", "copy") and not rv["op"]["place"]["proj"] and rv["op"]["place"]["local"] in muts:
+                            src_l = rv["op"]["place"]["local"]
+                        if src_l is not None and st_["place"]["local"] not in muts:
+                            muts.add(st_["place"]["local"])
+                            grew = True
+            for b, t in f.calls():
+                if b == sb:
+                    continue
+                for a_ in t.get("args", []):
+                    if a_.get("k") in ("move", "copy") and not a_["place"]["proj"] and a_["place"]["local"] in muts:
+                        okm, dm = False, "the sorted slice is also handed mutably to %s (line %s)" % (callee_of(t), t.get("line"))
+        res.ob("S-sort", "%s | nothing but the sort changes the clone" % tag, okm, dm, f.loc)
     # every field write is dominated by the sort and iterates the sorted clone
     enc = [(b, t) for b, t in f.calls() if (callee_of(t) or "").startswith("df::dfs::") and (callee_of(t) or "").endswith("::encode")
            or callee_of(t) == "df::assembler::Assembler::put"]
@@ -205,6 +239,26 @@ def _read_loops_complete(prog, res, d):
                 ok = False
                 detail = "the read at line %s can be skipped within its loop (back edge from block %d)" % (t.get("line"), l_)
     res.ob("S-read", "%s | every row of a read loop is read (the field decode dominates the loop's back edges)" % d.path, ok, detail or "%d read loops" % n, d.loc)
+    # the list returned is the one sized from the cell / satellite list and filled by the loops: nothing else changes it (no pop, truncate, sort ..)
+    import looprules
+    ret = None
+    for blk in d.rec["blocks"]:
+        for st_ in blk["stmts"]:
+            if st_["k"] == "assign" and st_["place"] == {"local": 0, "proj": []} and st_["rv"]["k"] == "aggregate" and st_["rv"].get("vname") == "Ok" \
+                    and st_["rv"]["ops"] and st_["rv"]["ops"][0].get("k") in ("move", "copy") and not st_["rv"]["ops"][0]["place"]["proj"]:
+                ret = st_["rv"]["ops"][0]["place"]["local"]
+    for _ in range(4):
+        # `_0 = Ok(move tmp)` with `tmp = move value`
+        mv = [st_ for blk in d.rec["blocks"] for st_ in blk["stmts"] if st_["k"] == "assign" and st_["place"] == {"local": ret, "proj": []}]
+        if ret is not None and len(mv) == 1 and mv[0]["rv"]["k"] == "use" and mv[0]["rv"]["op"].get("k") in ("move", "copy") and not mv[0]["rv"]["op"]["place"]["proj"]:
+            ret = mv[0]["rv"]["op"]["place"]["local"]
+        else:
+            break
+    if ret is not None:
+        allowed = {b for b, t in d.calls() if (callee_of(t) or "") in ("util::data_vec::DataVec::<T, N>::set_len", "util::data_vec::DataVec::<T, N>::iter_mut",
+                                                                        "util::data_vec::DataVec::<T, N>::push")}
+        okm, dm = looprules.only_mutated_by(d, ret, allowed)
+        res.ob("S-read", "%s | the list returned is changed only by set_len / iter_mut / push" % d.path, okm, dm, d.loc)
 
 
 def _mentions_elem(fa, b):
